@@ -185,7 +185,18 @@ Theorem C09_invited_only_by_rank : forall cfg verify w i e w' o cl n u' n0 u ch,
     ch_users co !! nick = Some rk /\ (cm_invite_only (ch_modes co) = true -> r_operator rk = true) /\ n ∉ dom (ch_users co).
 Proof. exact invited_only_by_rank. Qed.
 
+(* a KICK that selects nobody, as a whole step of the server after any history: absent channel, sender not on it, sender below
+   half-operator, or no named member the sender's rank may remove - the state and every connection record are unchanged, nobody
+   is closed, only the sender hears anything (its 403 / 442 / 482 / 441) *)
+Theorem C09_kick_refused_step : forall cfg verify w i l msg ch vs comment c nick w' o cl, Inv w ->
+  step cfg verify w i (EvLine l) = Ok (w', o, cl) ->
+  conns w !! i = Some c -> c_auth c = true -> c_nick c = Some nick -> tokenize l = inl msg ->
+  command_of_message msg = inl (KICK ch vs comment) -> (kick_decide (sh w) nick (client_name c) ch vs).1 = [] ->
+  sh w' = sh w /\ conns w' = conns w /\ Forall (fun x => x.1 = i) o.
+Proof. exact kick_refused_step. Qed.
+
 Print Assumptions C09_kickable.
+Print Assumptions C09_kick_refused_step.
 Print Assumptions C09_topic_changed_only_by_rank.
 Print Assumptions C09_invited_only_by_rank.
 Print Assumptions C09_removed_only_by_part_or_ranked_kick.
